@@ -461,12 +461,12 @@ def finding_key(entry, sc):
 
 def models(tier, seed):
     """D_Ecc: the SECDED construction, ALL data words x ALL flip sets of <= 2 stored bits, judged by RdJudge of R_Ecc."""
-    ms = [dict(module="MC_Ecc", cfg="MC_Ecc_k4.cfg", workers=2, timeout=600, label="D_Ecc k=4 all data x all flips<=2", xmx="2g"),
-          dict(module="MC_Ecc", cfg="MC_Ecc_k8.cfg", workers=4, timeout=900, label="D_Ecc k=8 all data x all flips<=2", xmx="4g"),
-          dict(module="MC_Ecc", cfg="MC_Ecc_neg.cfg", workers=2, timeout=600, label="D_Ecc negative control (no overall-parity check)",
+    ms = [dict(module="MC_Ecc", cfg="MC_Ecc_k4.cfg", workers=2, timeout=1800, label="D_Ecc k=4 all data x all flips<=2", xmx="2g"),
+          dict(module="MC_Ecc", cfg="MC_Ecc_k8.cfg", workers=4, timeout=3000, label="D_Ecc k=8 all data x all flips<=2", xmx="4g"),
+          dict(module="MC_Ecc", cfg="MC_Ecc_neg.cfg", workers=2, timeout=1800, label="D_Ecc negative control (no overall-parity check)",
                expect_violation=True, xmx="2g")]
     if tier == "thorough":
-        ms.append(dict(module="MC_Ecc", cfg="MC_Ecc_k11.cfg", workers=8, timeout=3000, label="D_Ecc k=11 all data x all flips<=2", xmx="8g"))
+        ms.append(dict(module="MC_Ecc", cfg="MC_Ecc_k11.cfg", workers=8, timeout=6000, label="D_Ecc k=11 all data x all flips<=2", xmx="8g"))
     return ms
 
 
